@@ -282,7 +282,9 @@ func (s *Statement) Pipeline(task *pod_info.PodInfo, hostname string, updateTask
 		log.InfraLogger.V(6).Infof(
 			"Task: <%v/%v> already exists on node: <%v> on gpu index of: <%v>, moving it to index: <%v>",
 			task.Namespace, task.Name, hostname, taskOnNode.GPUGroups, task.GPUGroups)
-		previousGpuGroup = taskOnNode.GPUGroups
+		if previousNode == hostname {
+			previousGpuGroup = taskOnNode.GPUGroups
+		}
 		replacedTaskOnNode = taskOnNode
 		if err := node.ConsolidateSharedPodInfoToDifferentGPU(task); err != nil {
 			log.InfraLogger.Errorf("Failed to unevict task <%v/%v> to node <%v> in Session <%v>: %v",
